@@ -609,6 +609,188 @@ def gen_all(repo, out, bindir):
         t += 'Definition g_rx_enabled {A : Type} (p : port A) : bool := false.\n'
     write_if_changed(os.path.join(out, 'GenPort.v'), t)
 
+    # ---- Duart::handle_command translated statement by statement.  State threaded: d (the Duart's own fields isr / ivec)
+    # and p (the port the command addresses); grammar: log macros (skipped), `port.<helper>()`, `self.F op= v`,
+    # `port.F op= v`, `port.F = 0 / None`, `port.rx_fifo.clear()`, if / else if / else on `cmd & K != 0`,
+    # `port_no == PORT_n`, `port.loopback()`, and one `match (cmd >> 4) & 7 { K => {..} .. _ => {} }`
+    def hc_translate():
+        body = find_fn(duart, 'handle_command')
+        m = re.search(r'let\s+port\s*=\s*&mut\s+self\.ports\[port_no\]\s*;', body)
+        if not m:
+            raise GenError('handle_command: `let port = &mut self.ports[port_no];` not found')
+        rest = body[m.end():]
+        m = re.match(r'\s*let\s*\(\s*(\w+)\s*,\s*(\w+)\s*,\s*(\w+)\s*\)\s*=\s*match\s+port_no\s*\{\s*PORT_0\s*=>\s*\(\s*(\w+)\s*,\s*(\w+)\s*,\s*(\w+)\s*\)\s*,\s*_\s*=>\s*\(\s*(\w+)\s*,\s*(\w+)\s*,\s*(\w+)\s*\)\s*,?\s*\}\s*;', rest)
+        if not m:
+            raise GenError('handle_command: the per-port table of interrupt-status bits was not found')
+        loc = {}
+        for i in range(3):
+            a, b = m.group(4 + i), m.group(7 + i)
+            if a not in du or b not in du:
+                raise GenError('handle_command: %s / %s not constants' % (a, b))
+            loc[m.group(1 + i)] = '(if port_no =? gd_PORT_0 then gd_%s else gd_%s)' % (a, b)
+        rest = rest[m.end():]
+
+        def val(tok):
+            tok = tok.strip()
+            if tok.startswith('(') and tok.endswith(')') and match_delim(tok, 0) == len(tok) - 1:
+                return val(tok[1:-1])
+            parts = split_top(tok, '|')
+            if len(parts) > 1:
+                e = val(parts[0])
+                for q in parts[1:]:
+                    e = 'Z.lor (%s) (%s)' % (e, val(q))
+                return e
+            if tok in loc:
+                return loc[tok]
+            if re.fullmatch(r'0x[0-9a-fA-F_]+|\d+', tok):
+                return str(parse_int(tok))
+            if tok in du:
+                return 'gd_' + tok
+            raise GenError('handle_command: value %r not understood' % tok)
+
+        def cond(c, var):
+            c = c.strip()
+            m = re.fullmatch(r'cmd\s*&\s*(\w+)\s*!=\s*0', c)
+            if m:
+                return 'negb (Z.land cmd %s =? 0)' % val(m.group(1))
+            m = re.fullmatch(r'port_no\s*==\s*(\w+)', c)
+            if m:
+                return 'port_no =? %s' % val(m.group(1))
+            if re.fullmatch(r'port\.loopback\(\)', c):
+                return 'g_loopback p' if var == 'p' else 'lb'
+            raise GenError('handle_command: condition %r not understood' % c)
+
+        def block(txt, var):
+            # var = 'p': only the statements that update the port; var = 'd': only those that update the Duart's own
+            # fields.  Returns a Gallina expression of the type of var, in which var is bound.  Sound because no port
+            # statement depends on the Duart's fields, and the only Duart-side dependence on the port is the loop-back
+            # test, which reads the mode registers that no statement here writes (checked below): it is passed in as lb.
+            txt = txt.strip()
+            k = 0
+            lets = []
+            while k < len(txt):
+                while k < len(txt) and txt[k] in ' \t\r\n;':
+                    k += 1
+                if k >= len(txt):
+                    break
+                m = re.match(r'(debug|trace|info|warn|error)!\s*\(', txt[k:])
+                if m:
+                    e = match_delim(txt, k + m.end() - 1)
+                    k = e + 1
+                    continue
+                if re.match(r'if\b', txt[k:]):
+                    chain = []
+                    els = None
+                    while True:
+                        b = txt.index('{', k)
+                        c = cond(txt[k + 2:b], var)
+                        e = match_delim(txt, b)
+                        chain.append((c, block(txt[b + 1:e], var)))
+                        k = e + 1
+                        m = re.match(r'\s*else\s*', txt[k:])
+                        if not m:
+                            break
+                        k += m.end()
+                        if re.match(r'if\b', txt[k:]):
+                            continue
+                        b = k
+                        if txt[b] != '{':
+                            raise GenError('handle_command: else without a block')
+                        e = match_delim(txt, b)
+                        els = block(txt[b + 1:e], var)
+                        k = e + 1
+                        break
+                    ex = els if els is not None else var
+                    for c, blk in reversed(chain):
+                        ex = '(if %s then %s else %s)' % (c, blk, ex)
+                    lets.append('let %s := %s in' % (var, ex))
+                    continue
+                m = re.match(r'match\s*\(cmd\s*>>\s*4\)\s*&\s*7\s*\{', txt[k:])
+                if m:
+                    b = k + m.end() - 1
+                    e = match_delim(txt, b)
+                    inner = txt[b + 1:e]
+                    arms = []
+                    j = 0
+                    while True:
+                        while j < len(inner) and inner[j] in ' \t\r\n,':
+                            j += 1
+                        if j >= len(inner):
+                            break
+                        a = inner.find('=>', j)
+                        pat = inner[j:a].strip()
+                        bb = inner.index('{', a)
+                        ee = match_delim(inner, bb)
+                        arms.append((pat, inner[bb + 1:ee]))
+                        j = ee + 1
+                    if not arms or arms[-1][0] != '_' or arms[-1][1].strip():
+                        raise GenError('handle_command: the command match does not end in an empty wildcard arm')
+                    ex = var
+                    for pat, ab in reversed(arms[:-1]):
+                        ex = '(if Z.land (Z.shiftr cmd 4) 7 =? %s then %s else %s)' % (val(pat), block(ab, var), ex)
+                    lets.append('let %s := %s in' % (var, ex))
+                    k = e + 1
+                    continue
+                e = txt.find(';', k)
+                if e < 0:
+                    e = len(txt)
+                st = txt[k:e].strip()
+                k = e + 1
+                out_p = None
+                out_d = None
+                m = re.fullmatch(r'port\.(disable_tx|enable_tx|disable_rx|enable_rx)\(\)', st)
+                if m:
+                    out_p = 'let p := g_%s p in' % m.group(1)
+                elif re.fullmatch(r'port\.rx_fifo\.clear\(\)', st):
+                    out_p = 'let p := with_fifo p (fifo_clear (rx_fifo p)) in'
+                elif re.fullmatch(r'port\.(\w+)\s*=\s*None', st) and re.fullmatch(r'port\.(\w+)\s*=\s*None', st).group(1) in PREG:
+                    out_p = 'let p := with_%s p None in' % PREG[re.fullmatch(r'port\.(\w+)\s*=\s*None', st).group(1)]
+                elif re.fullmatch(r'port\.mode_ptr\s*=\s*0', st):
+                    out_p = 'let p := with_mode_ptr p 0 in'
+                else:
+                    m = re.fullmatch(r'(self|port)\.(\w+)\s*(\|=|&=)\s*(!?)\s*(.+)', st, re.S)
+                    if not m:
+                        raise GenError('handle_command: statement %r not understood' % st)
+                    who, f, op, neg, v = m.group(1), m.group(2), m.group(3), m.group(4), val(m.group(5))
+                    if who == 'self' and f in ('isr', 'ivec'):
+                        v2 = 'd'
+                    elif who == 'port' and f in ('stat', 'conf'):
+                        v2 = 'p'
+                    else:
+                        raise GenError('handle_command: field %s.%s not understood' % (who, f))
+                    if op == '|=' and not neg:
+                        o = 'let %s := with_%s %s (Z.lor (%s %s) (%s)) in' % (v2, f, v2, f, v2, v)
+                    elif op == '&=' and neg:
+                        o = 'let %s := with_%s %s (clr8 (%s %s) (%s)) in' % (v2, f, v2, f, v2, v)
+                    else:
+                        raise GenError('handle_command: statement %r not understood' % st)
+                    if v2 == 'p':
+                        out_p = o
+                    else:
+                        out_d = o
+                if var == 'p' and out_p:
+                    lets.append(out_p)
+                if var == 'd' and out_d:
+                    lets.append(out_d)
+            return '(' + ' '.join(lets) + ' ' + var + ')'
+        if re.search(r'port\.mode\b|\.mode\[', rest):
+            raise GenError('handle_command: a statement touches the mode registers')
+        t = 'Definition g_cmd_port {A : Type} (cmd port_no : Z) (p : port A) : port A :=\n  %s.\n\n' % block(rest, 'p')
+        t += 'Definition g_cmd_duart (cmd port_no : Z) (lb : bool) (d : duart) : duart :=\n  %s.\n\n' % block(rest, 'd')
+        t += 'Definition g_handle_command (cmd port_no : Z) (d : duart) : duart :=\n'
+        t += '  let p := if port_no =? gd_PORT_0 then pa d else pb d in\n'
+        t += '  let d1 := g_cmd_duart cmd port_no (g_loopback p) d in\n'
+        t += '  if port_no =? gd_PORT_0 then with_pa d1 (g_cmd_port cmd port_no p) else with_pb d1 (g_cmd_port cmd port_no p).\n'
+        return t
+    t = '(* GENERATED by tools/gen.py from /repo/src/duart.rs -- do not edit *)\n'
+    t += 'From Coq Require Import ZArith Bool.\nFrom Dmd Require Import Model.Bits Model.Fifo Model.Mem Model.Duart Gen.GenDuart Gen.GenPort.\nOpen Scope Z_scope.\n\n'
+    try:
+        t += hc_translate()
+    except (GenError, ValueError) as ex:
+        sys.stderr.write('gen: handle_command not translated: %s\n' % ex)
+        t += '(* TRANSLATION FAILED: %s *)\nDefinition g_handle_command (cmd port_no : Z) (d : duart) : duart := with_isr d (-1).\n' % str(ex).replace('*)', '* )')
+    write_if_changed(os.path.join(out, 'GenCmd.v'), t)
+
     # ---- the eight condition-code helpers of Cpu (set_{c,v,z,n}_flag, {c,v,z,n}_flag) translated from their bodies
     t = '(* GENERATED by tools/gen.py from /repo/src/cpu.rs -- do not edit *)\n'
     t += 'From Coq Require Import ZArith Bool.\nFrom Dmd Require Import Model.Bits Model.Types Model.Cpu Gen.GenConsts.\nOpen Scope Z_scope.\n\n'
